@@ -267,10 +267,17 @@ pub fn split_record(b: &[u8]) -> Option<Split> {
 // crypto facts
 // ---------------------------------------------------------------------------------------------
 
+/// standard SEC1 tag for the length (compressed 02/03, uncompressed 04)
+fn std_tag(pk: &[u8]) -> bool {
+    matches!((pk.len(), pk.first()), (33, Some(2)) | (33, Some(3)) | (65, Some(4)))
+}
+
 pub fn secp_pk_valid(pk: &[u8]) -> (bool, bool) {
-    // (libsecp says valid, k256 says valid)
+    // (libsecp says valid, k256 says valid). The second oracle is k256's point decompression restricted to the
+    // standard SEC1 tags of the given length (02/03 for 33 bytes, 04 for 65): k256 also understands the
+    // x-only "compact" tag 05, which is not an encoding of a secp256k1 ENR key.
     let a = libsecp::PublicKey::from_slice(pk).is_ok();
-    let b = k256::ecdsa::VerifyingKey::from_sec1_bytes(pk).is_ok();
+    let b = std_tag(pk) && k256::ecdsa::VerifyingKey::from_sec1_bytes(pk).is_ok();
     (a, b)
 }
 
@@ -284,6 +291,9 @@ pub fn secp_nid(pk: &[u8]) -> Option<[u8; 32]> {
 /// node id via the k256 back-end's point decompression (cross-check of the above)
 pub fn secp_nid_k256(pk: &[u8]) -> Option<[u8; 32]> {
     use k256::elliptic_curve::sec1::ToEncodedPoint;
+    if !std_tag(pk) {
+        return None;
+    }
     let p = k256::PublicKey::from_sec1_bytes(pk).ok()?;
     let u = p.to_encoded_point(false);
     Some(keccak256(&u.as_bytes()[1..]))
@@ -304,6 +314,9 @@ pub fn secp_sigmath_libsecp(pk: &[u8], msg: &[u8], sig: &[u8]) -> bool {
 /// the same by k256
 pub fn secp_sigmath_k256(pk: &[u8], msg: &[u8], sig: &[u8]) -> bool {
     use k256::ecdsa::signature::hazmat::PrehashVerifier;
+    if !std_tag(pk) {
+        return false;
+    }
     let Ok(p) = k256::ecdsa::VerifyingKey::from_sec1_bytes(pk) else { return false };
     if sig.len() != 64 {
         return false;
